@@ -28,7 +28,7 @@ PROPS = {
         design_ref="5/C29", trusted_base=NAMES_TB,
         modelled="name handling of parse_internal, naming API, function-name rebuild and verbatim write-back of the other maps in encode_internal",
         assumptions=["a history in which an *edit* call panics, or that names a dead / unknown handle or uses a stale ImportsID, or whose decoded layout is not the live entity set of the handle specification "
-                     "(C06 / C09 / C10 defects D07, D24), or that calls replace_import_in_module with an ImportsID different from the FunctionID (D07), is outside the domain; a panic of a *naming* call on a live handle is a failure of the property",
+                     "(a C06 / C09 / C10 defect), is outside the domain; a panic of a *naming* call on a live handle is a failure of the property",
                      "a failure is excused only if every failing requirement is explained by a known class present in the input and the output equals the mirror model's prediction; otherwise class 299 / a mismatch is reported"],
     ),
 }
